@@ -40,6 +40,7 @@ def bootstrap():
     if not where.startswith(src):
         raise RuntimeError(f"HARNESS-ERROR jasm imported from {where}, expected under {src}")
     # things a child would otherwise import lazily inside an operation
+    from . import child  # noqa: F401  (so that forked children need not compile it)
     import encodings.idna  # noqa: F401
     import logging  # noqa: F401
     import tempfile  # noqa: F401
@@ -212,7 +213,8 @@ class Runner:
 
         Memoised by (operation, contents of every file it names, fault plan): a reference
         outcome is a pure function of those (asserted by the determinism self-test)."""
-        key = util.digest([op, [(n, util.digest(self.state.get(n))) for n in self.named_files(op)]])
+        kop = {k: v for k, v in op.items() if not k.startswith("_")}
+        key = util.digest([kop, [(n, util.digest(self.state.get(n))) for n in self.named_files(op)]])
         hit = self.memo.get(key)
         if hit is not None:
             self.ref_hits += 1
